@@ -98,6 +98,15 @@ func flipOp(op token.Token) token.Token {
 // guardCmp matches a comparison atom "X op Y" in either orientation; ops is a space separated list
 // of accepted operators for the orientation xRe op yRe.
 func guardCmp(name, xRe, ops, yRe string) Guard {
+	g := guardCmp1(name, xRe, ops, yRe)
+	if strings.TrimSpace(ops) == "==" {
+		// x == y also holds behind x <= y and x >= y (e.g. two early returns for > and <)
+		g.Split = []Guard{guardCmp1(name+" [<=]", xRe, "<=", yRe), guardCmp1(name+" [>=]", xRe, ">=", yRe)}
+	}
+	return g
+}
+
+func guardCmp1(name, xRe, ops, yRe string) Guard {
 	xr := regexp.MustCompile("^(?:" + xRe + ")$")
 	yr := regexp.MustCompile("^(?:" + yRe + ")$")
 	okOps := map[string]bool{}
